@@ -86,6 +86,8 @@ struct cache {
 	unsigned cap;		 /**< Total cache capacity */
 	unsigned inflight;	 /**< Index of first in-flight entry */
 	unsigned ninflight;	 /**< Number of in-flight entries */
+	bool orphan;		 /**< Released while entries were still
+				  *   referenced; freed with the last one */
 
 	kdump_attr_value_t hits;   /**< Cache hits */
 	kdump_attr_value_t misses; /**< Cache misses */
@@ -616,7 +618,8 @@ cache_insert(struct cache *cache, struct cache_entry *entry)
 void
 cache_put_entry(struct cache *cache, struct cache_entry *entry)
 {
-	--entry->refcnt;
+	if (!--entry->refcnt && cache->orphan)
+		cache_release(cache);
 }
 
 /**  Discard an entry.
@@ -639,6 +642,10 @@ cache_discard(struct cache *cache, struct cache_entry *entry)
 
 	if (--entry->refcnt)
 		return;
+	if (cache->orphan) {
+		cache_release(cache);
+		return;
+	}
 	if (cache_entry_valid(entry))
 		return;
 	--cache->ninflight;
@@ -749,6 +756,7 @@ cache_alloc(unsigned n, size_t size)
 
 	cache->elemsize = size;
 	cache->cap = n;
+	cache->orphan = false;
 	cache->hits.number = 0;
 	cache->misses.number = 0;
 	cache->entry_cleanup = NULL;
@@ -798,6 +806,27 @@ cache_free(struct cache *cache)
 	if (cache->data != cache)
 		free(cache->data);
 	free(cache);
+}
+
+/**  Free a cache object as soon as it is no longer used.
+ * @param cache  Cache object.
+ *
+ * If no cache entry is referenced, this is the same as @ref cache_free.
+ * Otherwise the cache stays allocated until the last referenced entry
+ * is put or discarded (e.g. a page which is still held by the read
+ * cache of libaddrxlat); it must not be used for new look-ups.
+ */
+void
+cache_release(struct cache *cache)
+{
+	unsigned i, n = 2 * cache->cap;
+
+	for (i = 0; i < n; ++i)
+		if (cache->ce[i].refcnt) {
+			cache->orphan = true;
+			return;
+		}
+	cache_free(cache);
 }
 
 /**  Get the configured cache size.
